@@ -263,7 +263,9 @@ theorem data_datagram_refreshes_liveness_witness :
     (tick (step s (.udp (.v4 [127, 0, 0, 1] 1)) (.v4 [203, 0, 113, 66] 6666) .data).1 []).1.state = .connected := by
   decide
 
-/-- the credential check is sound: it accepts only datagrams that really carry the credentials -/
+/-- the credential check is sound: it accepts only datagrams whose FIRST USERNAME is `<ufrag>:…` and whose FIRST
+MESSAGE-INTEGRITY is the HMAC under the local password (`Credentials`; see its comment for the one respect
+in which this is weaker than RFC 8445 §7.3: USERNAME need not precede MESSAGE-INTEGRITY) -/
 theorem accepted_implies_credentials (P : Prims) (ufrag pwd pkt : Bytes) (h : codeAuth P ufrag pwd pkt = true) :
     Credentials P ufrag pwd pkt :=
   codeAuth_sound P ufrag pwd pkt h
@@ -318,7 +320,7 @@ theorem first_message_integrity_decides (P : Prims) (ufrag pwd hdr : Bytes) (pre
 
 /-- non-vacuity of `unauth_request_inert`: e.g. no datagram shorter than 24 bytes carries credentials -/
 example (P : Prims) (ufrag pwd : Bytes) : ¬ Credentials P ufrag pwd [0, 1, 0, 0] := by
-  intro ⟨_, off, mac, ⟨hb, t0, t1, l0, l1, body, hd, _⟩, _⟩
+  intro ⟨_, off, mac, ⟨⟨sk, hb, _⟩, t0, t1, l0, l1, body, hd, _⟩, _⟩
   have h20 : 20 ≤ off := hb.ge20
   have := congrArg List.length hd
   simp only [List.length_drop, List.length_cons, List.length_nil] at this
